@@ -39,5 +39,35 @@ pub(crate) fn find_file_by_stem(name: &str, dir: &path::Path) -> ⟦(r: ⟧Optio
     None
 }
 //!end
+
+// ---- is_executable: permission bits of the file a path RESOLVES to (symbolic links followed) ----
+pub uninterp spec fn mode_of(p: Seq<char>) -> Option<u32>;     // stat(2): mode of the file p resolves to; None: nothing there (or dangling link)
+pub uninterp spec fn lmode_of(p: Seq<char>) -> Option<u32>;    // lstat(2): mode of the directory entry itself (for a symbolic link: the link's, always 0777 on Linux)
+pub struct Metadata { pub ghost mode: u32 }
+pub struct Permissions { pub ghost mode: u32 }
+impl Metadata { #[verifier::external_body] pub fn permissions(&self) -> (r: Permissions) ensures r.mode == self.mode { unimplemented!() } }
+impl Permissions { #[verifier::external_body] pub fn mode(&self) -> (r: u32) ensures r == self.mode { unimplemented!() } }
+pub mod fs_meta {
+    use vstd::prelude::*;
+    use super::*;
+    #[verifier::external_body] pub fn metadata(p: &path::PathBuf) -> (r: Result<Metadata, std::io::Error>)
+        ensures r matches Ok(md) ==> mode_of(p@) == Some(md.mode), r is Err ==> mode_of(p@) is None { unimplemented!() }
+    #[verifier::external_body] pub fn symlink_metadata(p: &path::PathBuf) -> (r: Result<Metadata, std::io::Error>)
+        ensures r matches Ok(md) ==> lmode_of(p@) == Some(md.mode), r is Err ==> lmode_of(p@) is None { unimplemented!() }
+}
+//!fn src/core/file.rs is_executable rules=R12 props=C06,C05
+pub(crate) fn is_executable(p: &path::PathBuf) -> ⟦(r: ⟧bool⟦)⟧
+@    ensures
+@        // C06 / C05: `executable` means: the file the path resolves to exists and has an execute bit - so that a command file without one
+@        // (also when reached through a symbolic link) is reported not_executable and never handed to the OS to be started
+@        r == (mode_of(p@) matches Some(m) && m & 0o111 != 0), // [C06,C05]
+{
+    if let Ok(metadata) = fs_meta::metadata(p) {
+        let permissions = metadata.permissions();
+        return permissions.mode() & 0o111 != 0;
+    }
+    false
+}
+//!end
 } // verus!
 fn main() {}
